@@ -1484,7 +1484,7 @@ def _run_hom_table(ctx, rid, it, table, home_rel, complex_scale=False,
                 verdict, detail = "undecided", t.tainted
         if failed is not None and verdict in ("proved", "object"):
             verdict, detail = "undecided", failed
-        hard = [ev for ev in events if ev["kind"] in ("E2", "E5")
+        hard = [ev for ev in events if ev["kind"] in ("E2", "E5", "E1c", "E6")
                 or (ev["kind"] == "E3" and (
                     ev["fn"] is None or ev["fn"].name not in HOM_ROWSUM_OK))]
         if debug:
